@@ -245,8 +245,24 @@ fn cmd_replay(path: &str) -> i32 {
     2
 }
 
+/// RSS cap inside the engine: exceeding it is a machinery failure (exit 2), never a verdict.
+fn spawn_rss_watchdog() {
+    let cap_gb: u64 = std::env::var("FCMC_MAX_RSS_GB").ok().and_then(|s| s.parse().ok()).unwrap_or(24);
+    std::thread::spawn(move || loop {
+        std::thread::sleep(std::time::Duration::from_millis(500));
+        if let Ok(s) = std::fs::read_to_string("/proc/self/statm") {
+            let pages: u64 = s.split_whitespace().nth(1).and_then(|x| x.parse().ok()).unwrap_or(0);
+            if pages * 4096 > cap_gb << 30 {
+                eprintln!("MACHINERY ERROR: resident set exceeds the cap of {cap_gb} GiB; aborting (no verdict)");
+                std::process::exit(2);
+            }
+        }
+    });
+}
+
 fn main() {
     engine::install_panic_hook();
+    spawn_rss_watchdog();
     let args: Vec<String> = std::env::args().collect();
     let get = |flag: &str| -> Option<String> {
         args.iter().position(|a| a == flag).and_then(|i| args.get(i + 1).cloned())
